@@ -197,7 +197,10 @@ INIT_MENU = ["x > 0", "y + 1 < 2", "p"]
 ACT_MENU = ["[] (x' = x + 1)", "[] ((X y) > 0 /\\ p)", "[] (p => q')"]
 REC_MENU = ["[]<> (z - x <= 0)", "[]<> (p => q)", "[]<> q"]
 PAIR_MENU = ["<>[] p \\/ []<> q", "<>[] p \\/ <>[] (x = 1) \\/ []<> q",
-             "<>[] p \\/ ([]<> q /\\ []<> (y < 2))", "<>[] (x > 2)"]
+             "<>[] p \\/ ([]<> q /\\ []<> (y < 2))", "<>[] (x > 2)",
+             "<>[] p \\/ (<>[] (x = 1) \\/ []<> q)",
+             "<>[] p \\/ ([]<> q /\\ ([]<> (y < 2) /\\ []<> p))",
+             "(<>[] p \\/ <>[] q) \\/ (<>[] (x = 1) \\/ []<> q)"]
 
 
 def split_cases():
@@ -210,7 +213,9 @@ def split_cases():
             continue
         perms = list(itertools.permutations(parts))
         for perm in perms[:24]:
-            yield dict(kind='split', parts=[list(p) for p in perm])
+            for grouping in ('left', 'right', 'balanced'):
+                yield dict(kind='split', parts=[list(p) for p in perm],
+                           grouping=grouping)
     # with one Streett pair (then no separate recurrence conjuncts)
     for pair in PAIR_MENU:
         for ni, na in itertools.product(range(2), range(3)):
@@ -218,7 +223,9 @@ def split_cases():
                      [('action', s) for s in ACT_MENU[:na]] +
                      [('pair', pair)])
             for perm in itertools.permutations(parts):
-                yield dict(kind='split', parts=[list(p) for p in perm])
+                for grouping in ('left', 'right'):
+                    yield dict(kind='split', parts=[list(p) for p in perm],
+                               grouping=grouping)
 
 
 _P = {}
@@ -314,7 +321,8 @@ def run_split(case, acc):
                       for k, p in parts)
     # unparenthesised top-level conjunction needs care with `=>` etc.;
     # the menus only contain conjuncts binding tighter than /\ or in parens
-    s = ' /\\ '.join('(' + p + ')' for k, p in parts)
+    s = _group(['(' + p + ')' for k, p in parts],
+               case.get('grouping', 'left'))
     acc.ev('s:' + s, nontrivial=len(parts) >= 2)
     d = gr1.split_gr1(s)
     exp = dict(init=[], action=[], recurrence=[], persistence=[])
@@ -342,6 +350,19 @@ def run_split(case, acc):
                 formula=s, part=k, got=[fm.show(x) for x in a],
                 expected=[fm.show(x) for x in exp[k]]))
             return
+
+
+def _group(items, how):
+    """Conjunction of `items` nested to the left, right, or balanced."""
+    if len(items) == 1:
+        return items[0]
+    if how == 'left':
+        return ' /\\ '.join(items)
+    if how == 'right':
+        return items[0] + ' /\\ (' + _group(items[1:], how) + ')'
+    m = len(items) // 2
+    return ('(' + _group(items[:m], how) + ') /\\ (' +
+            _group(items[m:], how) + ')')
 
 
 def _construct(s):
